@@ -1,6 +1,7 @@
 package c14
 
 import (
+	"errors"
 	"fmt"
 	"math"
 
@@ -146,6 +147,17 @@ func (r *region) labels(o *kit.Obs) {
 	}
 }
 
+// errSkipped: the case fell into a stated undecidable band (o.Skip has been called); callers turn it
+// into a nil verdict through done().
+var errSkipped = errors.New("skipped")
+
+func done(err error) error {
+	if errors.Is(err, errSkipped) {
+		return nil
+	}
+	return err
+}
+
 type coverOpts struct {
 	clockwise bool // every proper triangle must be clockwise (documented for TriangulateMesh)
 	earClip   bool // the algorithm drops vertices whose |sin(angle)| <= 1e-8 (documented threshold in removeColinearPoints)
@@ -197,6 +209,18 @@ func checkCover(r *region, tris [][3]kit.V2, opt coverOpts, o *kit.Obs) error {
 			continue
 		}
 		proper = append(proper, t)
+	}
+	// A non-degenerate triangle whose largest angle is within 1e-6 of pi (sine <= 1e-6) certifies that three
+	// input vertices are colinear to within 1e-6: such inputs sit in the band around the library's angle
+	// decisions (1e-8 colinearity threshold, ~1.5e-8 resolution of its arccosine-based angles), where a
+	// sliver of relative area <= 1e-6 may legitimately be dropped or emitted with either orientation.
+	for _, t := range proper {
+		e := []float64{t[0].Dist(t[1]), t[1].Dist(t[2]), t[2].Dist(t[0])}
+		e = kit.SortedFloats(e)
+		if math.Abs(kit.Orient2(t[0], t[1], t[2])) <= 1e-6*e[0]*e[1] {
+			o.Skip("near-colinear-vertex-triple-band")
+			return errSkipped
+		}
 	}
 	if ndeg > 0 {
 		o.Label("degenerate-triangles:yes")
@@ -257,7 +281,7 @@ func checkCover(r *region, tris [][3]kit.V2, opt coverOpts, o *kit.Obs) error {
 		// per vertex.  Inside that band the verdict is undecidable.
 		if opt.earClip && d <= tolA+0.5e-8*r.diam*r.diam*float64(len(r.pts)) {
 			o.Skip("area-within-colinear-removal-band")
-			return nil
+			return errSkipped
 		}
 		return fmt.Errorf("triangle areas sum to %.17g but the region has area %.17g (difference %g, %d triangles of which %d degenerate)", sum, r.area, sum-r.area, len(tris), ndeg)
 	}
@@ -272,7 +296,7 @@ func checkCover(r *region, tris [][3]kit.V2, opt coverOpts, o *kit.Obs) error {
 const tagOnDiagonal = "ear-vertex-on-diagonal"
 
 // reflexVertexOnDiagonal reports whether loop 0 of the region belongs to that class.
-func reflexVertexOnDiagonal(r *region) bool {
+func reflexVertexOnDiagonal(r *region, rel float64) bool {
 	l := r.loops[0]
 	n := len(l)
 	ccw := shoelace(l) > 0
@@ -287,7 +311,7 @@ func reflexVertexOnDiagonal(r *region) bool {
 		red = append(red, p2)
 		reflex = append(reflex, (s > 0) != ccw)
 	}
-	tol := 1e-9 * r.diam
+	tol := rel * r.diam
 	for i, v := range red {
 		if !reflex[i] {
 			continue
@@ -338,16 +362,28 @@ func reflexVertexOnDiagonal(r *region) bool {
 
 // skipKnownEar returns true when the case must be left out because the known finding is active.
 func skipKnownEar(r *region, o *kit.Obs) bool {
-	if !reflexVertexOnDiagonal(r) {
+	if reflexVertexOnDiagonal(r, 1e-9) {
+		o.Label("reflex-vertex-on-a-diagonal")
+		if kit.Excluded(tagOnDiagonal) {
+			kit.CountExcluded(tagOnDiagonal)
+			return true
+		}
 		return false
 	}
-	o.Label("reflex-vertex-on-a-diagonal")
-	if kit.Excluded(tagOnDiagonal) {
-		kit.CountExcluded(tagOnDiagonal)
-		return true
+	if reflexVertexOnDiagonal(r, 1e-6) {
+		o.Label("reflex-vertex-near-a-diagonal")
+		if kit.Excluded(tagNearDiagonal) {
+			kit.CountExcluded(tagNearDiagonal)
+			return true
+		}
 	}
 	return false
 }
+
+// tagNearDiagonal names the input class of the known finding "ear clipping panics when it ends on a
+// sliver": as tagOnDiagonal, but the reflex vertex misses the segment by between 1e-9 and 1e-6 diameters
+// (three vertices colinear to about the library's 1e-8 threshold without being exactly colinear).
+const tagNearDiagonal = "ear-near-colinear-triple"
 
 // tagFaceLine names the input class of the known finding "TriangulateFace picks its second basis vector
 // from rounding noise": some vertex other than the first two lies within 1e-9 diameters of the line
